@@ -97,6 +97,7 @@ static bool encodeTop(int kind, const Tlv &root, Bytes &out) {
 // schema-aware mutation: insert a fresh, valid instance of any field of the enclosing composite's schema (yields pure repetitions,
 // pure combinations of mutually exclusive alternatives, misplaced first / last / section elements, longer lists)
 static const int SM_ADD_FIELD = M_COUNT; static const int SM_MISPLACE_NC = M_COUNT + 1; static const int kMutKinds = M_COUNT + 2;
+static const int SM_VALUE_TWEAK = M_COUNT + 2; // drawn separately (not part of kMutKinds) so that saved replay files keep their meaning
 static void composites(Tlv &t, const Schema &s, std::vector<std::pair<Tlv *, const Schema *>> &out) {
     if (!t.nested) return; out.push_back({&t, &s});
     for (auto &k : t.kids) { const Field *f = s.find(k.tag); if (f && f->vt == VT_NEST) composites(k, *f->sub, out); }
@@ -115,6 +116,21 @@ static std::string misplaceNc(int kind, Tlv &root, const Pick &pick) {
     auto &pr = cs[ok[pick((uint32_t)ok.size())]]; std::vector<Tlv> &k = pr.first->kids; uint32_t sel = pick((uint32_t)k.size() * 2); size_t i = sel / 2; bool dup = sel & 1;
     Tlv e = k[i]; e.N = true; if (!dup) k.erase(k.begin() + i); size_t pos = pick((uint32_t)k.size() + 1); k.insert(k.begin() + pos, e);
     char b[80]; snprintf(b, sizeof b, "%s-with-N-flag(%s/%x)@%zu", dup ? "copy" : "move", pr.second->name, e.tag, pos); return b;
+}
+
+// one octet of a leaf value changed at a position that matters for structured values: the first three octets, the octet right behind the text of a
+// legacy identifier (its terminator), the last octet, or any position
+static bool legacyLooking(const Tlv &t) { return !t.nested && t.payload.size() == 29 && t.payload[0] == 0x03 && t.payload[1] == 0x00 && t.payload[2] <= 25; }
+static void collectLeaves(Tlv &t, std::vector<Tlv *> &out, int filter /* 0 all non-empty, 1 legacy-looking, 2 20..65 octets */) {
+    if (t.nested) { for (auto &k : t.kids) collectLeaves(k, out, filter); return; }
+    if (t.payload.empty()) return; if (filter == 1 && !legacyLooking(t)) return; if (filter == 2 && (t.payload.size() < 20 || t.payload.size() > 65)) return; out.push_back(&t);
+}
+static std::string valueTweak(Tlv &root, const Pick &pick, int filter) {
+    std::vector<Tlv *> lv; collectLeaves(root, lv, filter); if (lv.empty() && filter) { filter = 0; collectLeaves(root, lv, 0); } if (lv.empty()) return "";
+    Tlv &t = *lv[pick((uint32_t)lv.size())]; size_t n = t.payload.size(); uint32_t cl = pick(7); size_t pos;
+    switch (cl) { case 0: pos = 0; break; case 1: pos = 1 % n; break; case 2: pos = 2 % n; break; case 3: pos = legacyLooking(t) ? 3u + t.payload[2] : n / 2; break; case 4: pos = n - 1; break; default: pos = pick((uint32_t)n); break; }
+    if (pos >= n) pos = n - 1; uint32_t op = pick(3); uint8_t old = t.payload[pos]; t.payload[pos] = op == 0 ? (uint8_t)(old ^ 0x01) : (op == 1 ? (uint8_t)(old == 0xff ? 0x00 : 0xff) : (uint8_t)(old + 1));
+    char b[96]; snprintf(b, sizeof b, "value-octet(%x len=%zu)@%zu:%02x->%02x%s", t.tag, n, pos, old, t.payload[pos], legacyLooking(t) || (n == 29 && old != t.payload[pos] && pos < 3) ? "/legacy-id" : ""); return b;
 }
 
 // ---- fingerprints of the parsed objects (SDK getters) ------------------------------------------------------
@@ -270,11 +286,13 @@ struct Built { int kind = 0; Tlv root; std::string origin; bool modelSig = false
 static std::string ruleName(const std::string &r) { size_t p = r.rfind(':'); return p == std::string::npos ? r : r.substr(p + 1); }
 static std::string pathStr(const MutInfo &mi) { std::string s; char b[12]; for (unsigned t : mi.pathTags) { snprintf(b, sizeof b, "%x/", t); s += b; } return s; }
 
+static int g_tweakFilter = 0;
 static void runCase(Built &bl, const std::vector<std::pair<int, Pick>> &muts, int cfgVersion, Case &c) {
     int kind = bl.kind; Bytes base; if (!encodeTop(kind, bl.root, base) || base.size() > 60000) { c.skip("base object too large"); return; }
     Tlv root = bl.root; std::string mdesc; bool onlyUnknownNc = !muts.empty();
     for (auto &m : muts) {
         if (m.first == SM_ADD_FIELD) { std::string a = addField(kind, root, m.second); if (!a.empty()) { mdesc += a + " "; onlyUnknownNc = false; c.cls("mut:add-valid-field"); } continue; }
+        if (m.first == SM_VALUE_TWEAK) { std::string a = valueTweak(root, m.second, g_tweakFilter); if (!a.empty()) { mdesc += a + " "; onlyUnknownNc = false; c.cls(a.find("/legacy-id") != std::string::npos ? "mut:value-octet:legacy-id" : "mut:value-octet"); } continue; }
         if (m.first == SM_MISPLACE_NC) { std::string a = misplaceNc(kind, root, m.second); if (!a.empty()) { mdesc += a + " "; onlyUnknownNc = false; c.cls("mut:misplace-with-N-flag"); } continue; }
         MutInfo mi = mutateTree(root, m.second, m.first); if (mi.kind < 0) continue; mdesc += std::string(mutName(mi.kind)) + "@" + pathStr(mi) + " "; if (mi.kind != M_INSERT_UNKNOWN_NC) onlyUnknownNc = false; c.cls(std::string("mut:") + mutName(mi.kind)); }
     if (mdesc.empty()) onlyUnknownNc = false;
@@ -347,6 +365,7 @@ void harness_case(Dec &d, Case &c) {
     if (mm < 3) {} else if (mm < 6) { unsigned k = 1 + d.pick(2); for (unsigned i = 0; i < k; i++) muts.push_back({M_INSERT_UNKNOWN_NC, pk}); }
     else { unsigned k = mm < 12 ? 1 : (mm < 15 ? 2 : 3); for (unsigned i = 0; i < k; i++) muts.push_back({(int)d.pick(kMutKinds), pk}); }
     int cfg = 0; if (bl.kind != TK_SIG && bl.kind != TK_PUBFILE && d.pick(12) == 0) cfg = 1 + (int)d.pick(2);
+    { unsigned tw = d.pick(6); if (tw >= 4) { muts.push_back({SM_VALUE_TWEAK, pk}); g_tweakFilter = tw == 5 ? 1 : 0; } } // drawn last: older replay files decode to "no tweak"
     runCase(bl, muts, cfg, c);
 }
 
@@ -355,13 +374,14 @@ void harness_case(Dec &d, Case &c) {
 static Tlv fullInstance(int kind, unsigned inst) { uint8_t z = 0; Dec d(&z, 0); GenOpt o; o.full = true; o.variant = inst; return genTop(kind, d, o); }
 void harness_exh_case(const uint8_t *enc, size_t n, Case &c) {
     if (n < 6) { c.skip("short exhaustive encoding"); return; }
-    int kind = enc[0] % TK_COUNT; unsigned inst = enc[1] % 3, node = (unsigned)enc[2] << 8 | enc[3]; int mk = enc[4] % kMutKinds; unsigned var = enc[5] % 3; unsigned fld = n > 6 ? enc[6] : 0;
+    int kind = enc[0] % TK_COUNT; unsigned inst = enc[1] % 3, node = (unsigned)enc[2] << 8 | enc[3]; int mk = enc[4] == SM_VALUE_TWEAK ? SM_VALUE_TWEAK : enc[4] % kMutKinds; unsigned var = enc[5] % 3; unsigned fld = n > 6 ? enc[6] : 0;
     Built bl; bl.kind = kind; bl.root = fullInstance(kind, inst); bl.origin = "full-instance:" + num(inst);
     unsigned call = 0; Pick pk = [&](uint32_t m) -> uint32_t { unsigned k = call++; if (m == 0) return 0; if (k == 0) return node % m;
         if (mk == SM_ADD_FIELD) { if (k == 1) return fld % m; if (k == 2) return var % m; return var == 0 ? 0 : (var == 1 ? m - 1 : m / 2); } // field, value variant, position
         if (mk == SM_MISPLACE_NC) { if (k == 1) return fld % m; return var == 0 ? 0 : (var == 1 ? m - 1 : m / 2); } // (child, copy?) selector, position
+        if (mk == SM_VALUE_TWEAK) { if (k == 1) return 6 % m; if (k == 2) return fld % m; return var % m; } // explicit position, then the operation
         return (var * 7 + k * 3 + (var == 2 ? m - 1 : 0)) % m; };
-    std::vector<std::pair<int, Pick>> muts; muts.push_back({mk, pk});
+    std::vector<std::pair<int, Pick>> muts; muts.push_back({mk, pk}); g_tweakFilter = tier() ? 2 : 1;
     runCase(bl, muts, 0, c);
     c.desc += " node=" + num(node) + " var=" + num(var) + " fld=" + num(fld);
 }
@@ -386,6 +406,12 @@ void harness_exhaustive(int shard, int nshards) {
             std::vector<uint8_t> e = {(uint8_t)kind, (uint8_t)inst, (uint8_t)(node >> 8), (uint8_t)node, (uint8_t)SM_MISPLACE_NC, (uint8_t)var, (uint8_t)sel};
             if (runExh(e)) return;
           } }
-        if (shard == 0) stats().exhaustive[std::string(topName(kind)) + "/full-instance-" + num(inst) + ": (positions x mutation kinds + composites x schema fields + composites x children x {move, copy} with N flag) x 3 variants"] = cnt;
+        { std::vector<Tlv *> lv; collectLeaves(root, lv, tier() ? 2 : 1); // every octet of every legacy identifier (thorough: of every 20..65 octet value) x 3 alterations
+          for (unsigned node = 0; node < lv.size(); node++) for (unsigned pos = 0; pos < lv[node]->payload.size(); pos++) for (unsigned var = 0; var < 3; var++) {
+            cnt++; if ((int)(idx++ % (uint64_t)nshards) != shard) continue;
+            std::vector<uint8_t> e = {(uint8_t)kind, (uint8_t)inst, (uint8_t)(node >> 8), (uint8_t)node, (uint8_t)SM_VALUE_TWEAK, (uint8_t)var, (uint8_t)pos};
+            if (runExh(e)) return;
+          } }
+        if (shard == 0) stats().exhaustive[std::string(topName(kind)) + "/full-instance-" + num(inst) + ": (positions x mutation kinds + composites x schema fields + composites x children x {move, copy} with N flag + octets of structured values) x 3 variants"] = cnt;
     }
 }
